@@ -1,4 +1,611 @@
-import PintModel.Model.Enable
+import PintModel.Model.Flight
+import PintModel.Gen.Keys
+/-!
+# C14 — identical questions reach a Prometheus server once; concurrency stays bounded
+
+Theorems about every reachable state of the transition system `Model/Flight.lean` — any number of callers, questions,
+workers and any interleaving of the atomic steps:
+
+* `single_flight`   — the requests in flight at the server have pairwise different cache keys;
+* `bounded`         — at most `W` (= `concurrency`) requests are in flight;
+* `at_most_once`    — whenever a request for question `k` can be sent, the previous request for `k` (if any) has failed
+  or its answer has been evicted since: a successful answer is never asked for again during its cache lifetime;
+* `answer_reused`   — a worker that finds `k` in the cache cannot miss, and hands out exactly the cached answer.
+
+The hypothesis that makes them true is in the model's `acquire` guard: the lock key is a function of the cache key.
+`Gen/Keys` (regenerated from the Go source on every run) carries the lock-key and cache-key expressions of every
+endpoint; `keys_determined` decides that hypothesis over that table.
+-/
 namespace Pint.Props.C14
-theorem placeholder : True := trivial
+open Pint.Flight
+
+/-! ## helpers -/
+
+theorem nodup_map_inj {α β : Type} {f : α → β} : ∀ {l : List α}, (l.map f).Nodup → ∀ x ∈ l, ∀ y ∈ l, f x = f y → x = y := by
+  intro l
+  induction l with
+  | nil => intro _ x hx; simp at hx
+  | cons z zs ih =>
+    intro hn x hx y hy hf
+    simp only [List.map_cons, List.nodup_cons, List.mem_map, not_exists, not_and] at hn
+    rcases List.mem_cons.mp hx with rfl | hx' <;> rcases List.mem_cons.mp hy with rfl | hy'
+    · rfl
+    · exact absurd hf.symm (hn.1 y hy')
+    · exact absurd hf (hn.1 x hx')
+    · exact ih hn.2 x hx' y hy' hf
+
+theorem map_lk_setStage (lk : Nat) (s : Stage) (hs : List Holder) : (setStage lk s hs).map (·.lk) = hs.map (·.lk) := by
+  simp only [setStage, List.map_map]
+  apply List.map_congr_left
+  intro h _
+  by_cases hh : h.lk = lk <;> simp [hh]
+
+theorem mem_setStage {lk : Nat} {s : Stage} {hs : List Holder} {h' : Holder} (hm : h' ∈ setStage lk s hs) :
+    ∃ h ∈ hs, h'.lk = h.lk ∧ h'.key = h.key ∧ ((h.lk ≠ lk ∧ h' = h) ∨ (h.lk = lk ∧ h'.stage = s)) := by
+  simp only [setStage, List.mem_map] at hm
+  obtain ⟨h, hh, rfl⟩ := hm
+  refine ⟨h, hh, ?_⟩
+  by_cases hl : h.lk = lk
+  · simp [hl]
+  · simp [hl]
+
+theorem holderAt_spec {hs : List Holder} {lk : Nat} {p : Holder → Bool} (h : ((holderAt hs lk).any p) = true) :
+    ∃ x, holderAt hs lk = some x ∧ x ∈ hs ∧ x.lk = lk ∧ p x = true := by
+  cases hf : holderAt hs lk with
+  | none => simp [hf] at h
+  | some x =>
+    rw [hf] at h
+    have hx := List.find?_some (show hs.find? (fun h => h.lk == lk) = some x from hf)
+    exact ⟨x, rfl, List.mem_of_find?_eq_some hf, by simpa using hx, by simpa using h⟩
+
+theorem keyAt_eq {s : St} {lk : Nat} {x : Holder} (h : holderAt s.holders lk = some x) : keyAt s lk = x.key := by
+  simp [keyAt, h]
+
+theorem find_filter_ne (c : List (Nat × Nat)) {k0 k : Nat} (h : ¬k0 = k) :
+    (c.filter fun e => e.1 != k0).find? (fun e => e.1 == k) = c.find? (fun e => e.1 == k) := by
+  have h' : ¬k = k0 := fun hh => h hh.symm
+  induction c with
+  | nil => rfl
+  | cons e es ih =>
+    by_cases he : e.1 = k0
+    · have hek : ¬e.1 = k := by rw [he]; exact h
+      simp [List.filter_cons, he, List.find?_cons, h, ih]
+    · by_cases hk : e.1 = k
+      · simp [List.filter_cons, he, List.find?_cons, hk]
+        simp [← hk, he]
+      · simp [List.filter_cons, he, List.find?_cons, hk, ih]
+
+theorem lookup_cacheSet (c : List (Nat × Nat)) (k0 a k : Nat) :
+    lookup (cacheSet c k0 a) k = if k0 = k then some a else lookup c k := by
+  unfold lookup cacheSet
+  by_cases h : k0 = k
+  · simp [h]
+  · have hne : (k0 == k) = false := by simp [h]
+    simp only [List.find?_cons, hne, h, if_false]
+    rw [find_filter_ne c h]
+
+theorem lookup_cacheDel (c : List (Nat × Nat)) (k0 k : Nat) :
+    lookup (cacheDel c k0) k = if k0 = k then none else lookup c k := by
+  unfold lookup cacheDel
+  by_cases h : k0 = k
+  · subst h
+    simp only [if_true, Option.map_eq_none_iff]
+    apply List.find?_eq_none.mpr
+    intro e he
+    have := (List.mem_filter.mp he).2
+    simpa using this
+  · simp only [h, if_false]
+    rw [find_filter_ne c h]
+
+/-! ## the invariant -/
+
+structure Inv (W : Nat) (lockOf : Nat → Nat) (s : St) : Prop where
+  lks : (s.holders.map (·.lk)).Nodup
+  own : ∀ h ∈ s.holders, lockOf h.key = h.lk
+  bound : active s.holders ≤ W
+  wait : ∀ h ∈ s.holders, waitingB h.stage = true → lookup s.cache h.key = none
+  fr : ∀ k, fresh k s.log = true →
+    (s.holders.any fun h => h.key == k && flyingB h.stage) = true ∨ (lookup s.cache k).isSome = true
+
+theorem inv_init (W : Nat) (lockOf : Nat → Nat) : Inv W lockOf init :=
+  ⟨by simp [init], by simp [init], by simp [init, active], by simp [init], by simp [init, fresh]⟩
+
+/-- two holders with one cache key are the same holder -/
+theorem key_inj {W : Nat} {lockOf : Nat → Nat} {s : St} (hI : Inv W lockOf s) {x y : Holder}
+    (hx : x ∈ s.holders) (hy : y ∈ s.holders) (hk : x.key = y.key) : x = y :=
+  nodup_map_inj hI.lks x hx y hy (by rw [← hI.own x hx, ← hI.own y hy, hk])
+
+theorem lk_inj {W : Nat} {lockOf : Nat → Nat} {s : St} (hI : Inv W lockOf s) {x y : Holder}
+    (hx : x ∈ s.holders) (hy : y ∈ s.holders) (hk : x.lk = y.lk) : x = y :=
+  nodup_map_inj hI.lks x hx y hy hk
+
+/-! ## stage changes -/
+
+def anyFly (hs : List Holder) (k : Nat) : Bool := hs.any fun h => h.key == k && flyingB h.stage
+
+theorem setStage_same {W : Nat} {lockOf : Nat → Nat} {s : St} (hI : Inv W lockOf s) {x h : Holder}
+    (hx : x ∈ s.holders) (hh : h ∈ s.holders) (hl : h.lk = x.lk) : h = x := lk_inj hI hh hx hl
+
+theorem active_setStage_le {W : Nat} {lockOf : Nat → Nat} {s : St} (hI : Inv W lockOf s) {x : Holder}
+    (hx : x ∈ s.holders) (s1 : Stage) (hb : activeB s1 = true → activeB x.stage = true) :
+    active (setStage x.lk s1 s.holders) ≤ active s.holders := by
+  simp only [active, setStage, List.countP_map]
+  apply List.countP_mono_left
+  intro h hh hp
+  simp only [Function.comp] at hp
+  by_cases hl : h.lk = x.lk
+  · have := setStage_same hI hx hh hl
+    subst this
+    simp at hp
+    exact hb hp
+  · simpa [hl] using hp
+
+theorem countP_or_le {α : Type} (p q : α → Bool) (l : List α) :
+    l.countP (fun a => p a || q a) ≤ l.countP p + l.countP q := by
+  induction l with
+  | nil => simp
+  | cons a as ih =>
+    simp only [List.countP_cons]
+    cases hp : p a <;> cases hq : q a <;> simp <;> omega
+
+theorem countP_lk_le_one : ∀ {hs : List Holder}, (hs.map (·.lk)).Nodup → ∀ lk, hs.countP (fun h => h.lk == lk) ≤ 1 := by
+  intro hs
+  induction hs with
+  | nil => intro _ _; simp
+  | cons h hs ih =>
+    intro hn lk
+    simp only [List.map_cons, List.nodup_cons, List.mem_map, not_exists, not_and] at hn
+    simp only [List.countP_cons]
+    by_cases hl : h.lk = lk
+    · have : hs.countP (fun h => h.lk == lk) = 0 := by
+        apply List.countP_eq_zero.mpr
+        intro y hy
+        have := hn.1 y hy
+        simp [← hl]
+        exact this
+      simp [hl, this]
+    · have := ih hn.2 lk
+      simp [hl]
+      exact this
+
+theorem active_setStage_take {W : Nat} {lockOf : Nat → Nat} {s : St} (hI : Inv W lockOf s) (lk : Nat) (s1 : Stage) :
+    active (setStage lk s1 s.holders) ≤ active s.holders + 1 := by
+  simp only [active, setStage, List.countP_map]
+  have h1 : s.holders.countP ((fun h => activeB h.stage) ∘ fun h => if (h.lk == lk) = true then { h with stage := s1 } else h) ≤
+      s.holders.countP (fun h => activeB h.stage || h.lk == lk) := by
+    apply List.countP_mono_left
+    intro h _ hp
+    simp only [Function.comp] at hp
+    by_cases hl : h.lk = lk
+    · simp [hl]
+    · simp [hl] at hp; simp [hp]
+  have h2 := countP_or_le (fun h : Holder => activeB h.stage) (fun h => h.lk == lk) s.holders
+  have h3 := countP_lk_le_one hI.lks lk
+  omega
+
+theorem anyFly_setStage_other {W : Nat} {lockOf : Nat → Nat} {s : St} (hI : Inv W lockOf s) {x : Holder}
+    (hx : x ∈ s.holders) (s1 : Stage) {k : Nat} (hk : x.key ≠ k) (h : anyFly s.holders k = true) :
+    anyFly (setStage x.lk s1 s.holders) k = true := by
+  simp only [anyFly, List.any_eq_true, Bool.and_eq_true, beq_iff_eq] at h ⊢
+  obtain ⟨y, hy, hyk, hyf⟩ := h
+  refine ⟨y, ?_, hyk, hyf⟩
+  simp only [setStage, List.mem_map]
+  refine ⟨y, hy, ?_⟩
+  have : y.lk ≠ x.lk := by
+    intro hl
+    have := setStage_same hI hx hy hl
+    rw [this] at hyk
+    exact hk hyk
+  simp [this]
+
+theorem anyFly_setStage_mono {W : Nat} {lockOf : Nat → Nat} {s : St} (hI : Inv W lockOf s) {x : Holder}
+    (hx : x ∈ s.holders) (s1 : Stage) (hm : flyingB x.stage = true → flyingB s1 = true) {k : Nat}
+    (h : anyFly s.holders k = true) : anyFly (setStage x.lk s1 s.holders) k = true := by
+  simp only [anyFly, List.any_eq_true, Bool.and_eq_true, beq_iff_eq] at h ⊢
+  obtain ⟨y, hy, hyk, hyf⟩ := h
+  by_cases hl : y.lk = x.lk
+  · have := setStage_same hI hx hy hl
+    subst this
+    refine ⟨{ y with stage := s1 }, ?_, hyk, hm hyf⟩
+    simp only [setStage, List.mem_map]
+    exact ⟨y, hy, by simp⟩
+  · refine ⟨y, ?_, hyk, hyf⟩
+    simp only [setStage, List.mem_map]
+    exact ⟨y, hy, by simp [hl]⟩
+
+theorem anyFly_setStage_self {s : St} {x : Holder} (hx : x ∈ s.holders) (s1 : Stage) (hf : flyingB s1 = true) :
+    anyFly (setStage x.lk s1 s.holders) x.key = true := by
+  simp only [anyFly, List.any_eq_true, Bool.and_eq_true, beq_iff_eq]
+  refine ⟨{ x with stage := s1 }, ?_, rfl, hf⟩
+  simp only [setStage, List.mem_map]
+  exact ⟨x, hx, by simp⟩
+
+/-- everything but the log-and-cache part of a stage change -/
+theorem pres_core {W : Nat} {lockOf : Nat → Nat} {s : St} (hI : Inv W lockOf s) {x : Holder} (hx : x ∈ s.holders)
+    (s1 : Stage) (cache' : List (Nat × Nat)) (log' : List Ev)
+    (hbound : active (setStage x.lk s1 s.holders) ≤ W)
+    (hw : ∀ h ∈ s.holders, h ≠ x → waitingB h.stage = true → lookup cache' h.key = none)
+    (hw1 : waitingB s1 = true → lookup cache' x.key = none)
+    (hf : ∀ k, fresh k log' = true → anyFly (setStage x.lk s1 s.holders) k = true ∨ (lookup cache' k).isSome = true) :
+    Inv W lockOf { holders := setStage x.lk s1 s.holders, cache := cache', log := log' } := by
+  refine ⟨?_, ?_, hbound, ?_, hf⟩
+  · simp only [map_lk_setStage]; exact hI.lks
+  · intro h' hm
+    obtain ⟨h, hh, hl, hk, _⟩ := mem_setStage hm
+    rw [hl, hk]; exact hI.own h hh
+  · intro h' hm hwait
+    obtain ⟨h, hh, hl, hk, hcase⟩ := mem_setStage hm
+    rcases hcase with ⟨hne, heq⟩ | ⟨heq, hst⟩
+    · subst heq
+      have : h' ≠ x := fun e => hne (by rw [e])
+      exact hw h' hh this hwait
+    · have := setStage_same hI hx hh heq
+      subst this
+      rw [hk]
+      exact hw1 (by rw [← hst]; exact hwait)
+
+theorem fresh_cons_deliver (k k' : Nat) (r : Option Nat) (l : List Ev) : fresh k (.deliver k' r :: l) = fresh k l := rfl
+theorem fresh_cons_respOk (k k' a : Nat) (l : List Ev) : fresh k (.respOk k' a :: l) = fresh k l := rfl
+
+/-- old `fr` transported through a stage change that keeps flying holders flying, cache unchanged -/
+theorem fr_mono {W : Nat} {lockOf : Nat → Nat} {s : St} (hI : Inv W lockOf s) {x : Holder} (hx : x ∈ s.holders)
+    (s1 : Stage) (hm : flyingB x.stage = true → flyingB s1 = true) :
+    ∀ k, fresh k s.log = true → anyFly (setStage x.lk s1 s.holders) k = true ∨ (lookup s.cache k).isSome = true := by
+  intro k hk
+  rcases hI.fr k hk with h | h
+  · exact Or.inl (anyFly_setStage_mono hI hx s1 hm h)
+  · exact Or.inr h
+
+theorem wait_keep {W : Nat} {lockOf : Nat → Nat} {s : St} (hI : Inv W lockOf s) (x : Holder) :
+    ∀ h ∈ s.holders, h ≠ x → waitingB h.stage = true → lookup s.cache h.key = none :=
+  fun h hh _ hw => hI.wait h hh hw
+
+/-- one step preserves the invariant -/
+theorem step_inv {W : Nat} {lockOf : Nat → Nat} {s : St} (hI : Inv W lockOf s) (a : Act)
+    (he : enabled W lockOf s a = true) : Inv W lockOf (apply s a) := by
+  cases a with
+  | acquire lk key =>
+    simp only [enabled, Bool.and_eq_true, beq_iff_eq, Bool.not_eq_true', List.any_eq_false] at he
+    refine ⟨?_, ?_, ?_, ?_, ?_⟩
+    · simp only [apply, List.map_cons, List.nodup_cons, List.mem_map, not_exists, not_and]
+      refine ⟨fun h hh hl => ?_, hI.lks⟩
+      have := he.2 h hh
+      simp [hl] at this
+    · intro h hh
+      simp only [apply] at hh
+      rcases List.mem_cons.mp hh with rfl | h'
+      · exact he.1
+      · exact hI.own h h'
+    · have : active ({ lk := lk, key := key, stage := Stage.acquired } :: s.holders) = active s.holders := by
+        simp [active, List.countP_cons, activeB]
+      simp only [apply]; rw [this]; exact hI.bound
+    · intro h hh hw
+      simp only [apply] at hh
+      rcases List.mem_cons.mp hh with rfl | h'
+      · simp [waitingB] at hw
+      · exact hI.wait h h' hw
+    · intro k hk
+      rcases hI.fr k hk with h | h
+      · left
+        simp only [apply, List.any_cons]
+        simp [h]
+      · exact Or.inr h
+  | enqueue lk =>
+    obtain ⟨x, hxa, hx, hxl, hp⟩ := holderAt_spec he
+    subst hxl
+    have hst : x.stage = .acquired := by simpa using hp
+    have hc := pres_core hI hx .queued s.cache s.log
+      (Nat.le_trans (active_setStage_le hI hx .queued (by simp [activeB])) hI.bound)
+      (wait_keep hI x) (by simp [waitingB]) (fr_mono hI hx .queued (by simp [hst, flyingB]))
+    simpa [apply] using hc
+  | take lk =>
+    simp only [enabled, Bool.and_eq_true, decide_eq_true_eq] at he
+    obtain ⟨x, hxa, hx, hxl, hp⟩ := holderAt_spec he.1
+    subst hxl
+    have hst : x.stage = .queued := by simpa using hp
+    have hb : active (setStage x.lk .got s.holders) ≤ W := by
+      have := active_setStage_take hI x.lk .got
+      omega
+    have hc := pres_core hI hx .got s.cache s.log hb (wait_keep hI x) (by simp [waitingB])
+      (fr_mono hI hx .got (by simp [hst, flyingB]))
+    simpa [apply] using hc
+  | hit lk =>
+    obtain ⟨x, hxa, hx, hxl, hp⟩ := holderAt_spec he
+    subst hxl
+    simp only [Bool.and_eq_true, beq_iff_eq] at hp
+    have hst : x.stage = .got := hp.1
+    have hc := pres_core hI hx (.delivered (lookup s.cache x.key)) s.cache (.deliver x.key (lookup s.cache x.key) :: s.log)
+      (Nat.le_trans (active_setStage_le hI hx _ (by simp [activeB])) hI.bound)
+      (wait_keep hI x) (by simp [waitingB])
+      (fun k hk => fr_mono hI hx _ (by simp [hst, flyingB]) k (by simpa [fresh_cons_deliver] using hk))
+    simpa [apply, keyAt_eq hxa] using hc
+  | miss lk =>
+    obtain ⟨x, hxa, hx, hxl, hp⟩ := holderAt_spec he
+    subst hxl
+    simp only [Bool.and_eq_true, beq_iff_eq, Option.isNone_iff_eq_none] at hp
+    have hst : x.stage = .got := hp.1
+    have hc := pres_core hI hx .missed s.cache s.log
+      (Nat.le_trans (active_setStage_le hI hx .missed (by simp [hst, activeB])) hI.bound)
+      (wait_keep hI x) (fun _ => hp.2) (fr_mono hI hx .missed (by simp [hst, flyingB]))
+    simpa [apply] using hc
+  | unsupported lk =>
+    obtain ⟨x, hxa, hx, hxl, hp⟩ := holderAt_spec he
+    subst hxl
+    have hst : x.stage = .missed := by simpa using hp
+    have hc := pres_core hI hx (.delivered none) s.cache (.deliver x.key none :: s.log)
+      (Nat.le_trans (active_setStage_le hI hx _ (by simp [activeB])) hI.bound)
+      (wait_keep hI x) (by simp [waitingB])
+      (fun k hk => fr_mono hI hx _ (by simp [hst, flyingB]) k (by simpa [fresh_cons_deliver] using hk))
+    simpa [apply, keyAt_eq hxa] using hc
+  | send lk =>
+    obtain ⟨x, hxa, hx, hxl, hp⟩ := holderAt_spec he
+    subst hxl
+    have hst : x.stage = .missed := by simpa using hp
+    have hwx : lookup s.cache x.key = none := hI.wait x hx (by simp [hst, waitingB])
+    have hc := pres_core hI hx .inflight s.cache (.send x.key :: s.log)
+      (Nat.le_trans (active_setStage_le hI hx _ (by simp [hst, activeB])) hI.bound)
+      (wait_keep hI x) (fun _ => hwx)
+      (fun k hk => by
+        by_cases hkx : x.key = k
+        · subst hkx; exact Or.inl (anyFly_setStage_self hx .inflight (by simp [flyingB]))
+        · have : fresh k s.log = true := by simpa [fresh, hkx] using hk
+          exact fr_mono hI hx _ (by simp [hst, flyingB]) k this)
+    simpa [apply, keyAt_eq hxa] using hc
+  | respOk lk a =>
+    obtain ⟨x, hxa, hx, hxl, hp⟩ := holderAt_spec he
+    subst hxl
+    have hst : x.stage = .inflight := by simpa using hp
+    have hwx : lookup s.cache x.key = none := hI.wait x hx (by simp [hst, waitingB])
+    have hc := pres_core hI hx (.filling a) s.cache (.respOk x.key a :: s.log)
+      (Nat.le_trans (active_setStage_le hI hx _ (by simp [hst, activeB])) hI.bound)
+      (wait_keep hI x) (fun _ => hwx)
+      (fun k hk => fr_mono hI hx _ (by simp [flyingB]) k (by simpa [fresh_cons_respOk] using hk))
+    simpa [apply, keyAt_eq hxa] using hc
+  | respErr lk =>
+    obtain ⟨x, hxa, hx, hxl, hp⟩ := holderAt_spec he
+    subst hxl
+    have hst : x.stage = .inflight := by simpa using hp
+    have hc := pres_core hI hx (.delivered none) s.cache (.respErr x.key :: s.log)
+      (Nat.le_trans (active_setStage_le hI hx _ (by simp [activeB])) hI.bound)
+      (wait_keep hI x) (by simp [waitingB])
+      (fun k hk => by
+        by_cases hkx : x.key = k
+        · subst hkx; simp [fresh] at hk
+        · have hfr : fresh k s.log = true := by simpa [fresh, hkx] using hk
+          rcases hI.fr k hfr with h | h
+          · exact Or.inl (anyFly_setStage_other hI hx _ hkx h)
+          · exact Or.inr h)
+    simpa [apply, keyAt_eq hxa] using hc
+  | cacheSet lk =>
+    obtain ⟨x, hxa, hx, hxl, hp⟩ := holderAt_spec he
+    subst hxl
+    cases hst : x.stage with
+    | filling a =>
+      have hc := pres_core hI hx (.delivered (some a)) (cacheSet s.cache x.key a) (.deliver x.key (some a) :: s.log)
+        (Nat.le_trans (active_setStage_le hI hx _ (by simp [activeB])) hI.bound)
+        (fun h hh hne hw => by
+          have hk : x.key ≠ h.key := fun e => hne (key_inj hI hh hx e.symm)
+          rw [lookup_cacheSet]; simp only [hk, if_false]; exact hI.wait h hh hw)
+        (by simp [waitingB])
+        (fun k hk => by
+          by_cases hkx : x.key = k
+          · subst hkx; right; rw [lookup_cacheSet]; simp
+          · have hfr : fresh k s.log = true := by simpa [fresh_cons_deliver] using hk
+            rcases hI.fr k hfr with h | h
+            · exact Or.inl (anyFly_setStage_other hI hx _ hkx h)
+            · right; rw [lookup_cacheSet]; simpa [hkx] using h)
+      simpa [apply, hxa, hst, keyAt_eq hxa] using hc
+    | _ => simp [hst] at hp
+  | gc k0 =>
+    refine ⟨hI.lks, hI.own, hI.bound, ?_, ?_⟩
+    · intro h hh hw
+      simp only [apply]
+      rw [lookup_cacheDel]
+      by_cases hk : k0 = h.key
+      · simp [hk]
+      · simp only [hk, if_false]; exact hI.wait h hh hw
+    · intro k hk
+      simp only [apply] at hk ⊢
+      by_cases hkk : k0 = k
+      · subst hkk; simp [fresh] at hk
+      · have hfr : fresh k s.log = true := by simpa [fresh, hkk] using hk
+        rcases hI.fr k hfr with h | h
+        · exact Or.inl h
+        · right; rw [lookup_cacheDel]; simpa [hkk] using h
+  | release lk =>
+    obtain ⟨x, hxa, hx, hxl, hp⟩ := holderAt_spec he
+    subst hxl
+    have hnf : flyingB x.stage = false := by
+      cases hst : x.stage <;> simp [hst] at hp <;> simp [flyingB]
+    have hsub : (s.holders.filter fun h => h.lk != x.lk).Sublist s.holders := List.filter_sublist
+    refine ⟨?_, ?_, ?_, ?_, ?_⟩
+    · exact List.Nodup.sublist (List.Sublist.map _ hsub) hI.lks
+    · intro h hh; exact hI.own h (hsub.subset hh)
+    · exact Nat.le_trans (List.Sublist.countP_le hsub) hI.bound
+    · intro h hh hw; exact hI.wait h (hsub.subset hh) hw
+    · intro k hk
+      rcases hI.fr k hk with h | h
+      · left
+        simp only [List.any_eq_true, Bool.and_eq_true, beq_iff_eq] at h
+        obtain ⟨y, hy, hyk, hyf⟩ := h
+        simp only [apply, List.any_eq_true, Bool.and_eq_true, beq_iff_eq, List.mem_filter, bne_iff_ne, ne_eq]
+        refine ⟨y, ⟨hy, fun hl => ?_⟩, hyk, hyf⟩
+        have := lk_inj hI hy hx hl
+        subst this
+        rw [hyf] at hnf; exact absurd hnf (by simp)
+      · exact Or.inr h
+
+theorem reach_inv {W : Nat} {lockOf : Nat → Nat} {s : St} (h : Reach W lockOf s) : Inv W lockOf s := by
+  induction h with
+  | init => exact inv_init W lockOf
+  | step a _ he ih => exact step_inv ih a he
+
+/-! ## the property -/
+
+/-- **single flight**: in every reachable state the requests in flight at the server have pairwise different cache
+keys — identical requests are never in flight at the same time. -/
+theorem single_flight {W : Nat} {lockOf : Nat → Nat} {s : St} (h : Reach W lockOf s) : (inflightKeys s).Nodup := by
+  have hI := reach_inv h
+  unfold inflightKeys
+  have hsub : (s.holders.filter fun h => h.stage == .inflight).Sublist s.holders := List.filter_sublist
+  have hn : ((s.holders.filter fun h => h.stage == .inflight).map (·.lk)).Nodup :=
+    List.Nodup.sublist (List.Sublist.map _ hsub) hI.lks
+  -- keys determine lock keys, so a repeated key would be a repeated lock key
+  generalize hl : (s.holders.filter fun h => h.stage == .inflight) = l at hn hsub
+  have hown : ∀ h ∈ l, lockOf h.key = h.lk := fun h hh => hI.own h (hsub.subset hh)
+  clear hl hsub
+  induction l with
+  | nil => simp
+  | cons x xs ih =>
+    simp only [List.map_cons, List.nodup_cons, List.mem_map, not_exists, not_and] at hn ⊢
+    refine ⟨fun y hy hk => hn.1 y hy ?_, ih hn.2 (fun h hh => hown h (by simp [hh]))⟩
+    rw [← hown y (by simp [hy]), ← hown x (by simp), hk]
+
+/-- **bounded concurrency**: never more than `W` requests in flight. -/
+theorem bounded {W : Nat} {lockOf : Nat → Nat} {s : St} (h : Reach W lockOf s) : (inflightKeys s).length ≤ W := by
+  have hI := reach_inv h
+  unfold inflightKeys
+  rw [List.length_map, ← List.countP_eq_length_filter]
+  refine Nat.le_trans (List.countP_mono_left ?_) hI.bound
+  intro x _ hx
+  have : x.stage = .inflight := by simpa using hx
+  simp [this, activeB]
+
+/-- **at most once per cache lifetime**: whenever a request for question `k` can be sent, the most recent event about
+`k` at the server is not an unanswered-or-successful request — it failed, or its answer was evicted, or there was
+none.  So between two requests for one question there is always an error or an eviction. -/
+theorem at_most_once {W : Nat} {lockOf : Nat → Nat} {s : St} (h : Reach W lockOf s) (lk : Nat)
+    (he : enabled W lockOf s (.send lk) = true) : fresh (keyAt s lk) s.log = false := by
+  have hI := reach_inv h
+  obtain ⟨x, hxa, hx, hxl, hp⟩ := holderAt_spec he
+  have hst : x.stage = .missed := by simpa using hp
+  rw [keyAt_eq hxa]
+  cases hf : fresh x.key s.log with
+  | false => rfl
+  | true =>
+    rcases hI.fr x.key hf with h1 | h1
+    · simp only [List.any_eq_true, Bool.and_eq_true, beq_iff_eq] at h1
+      obtain ⟨y, hy, hyk, hyf⟩ := h1
+      have := key_inj hI hy hx hyk
+      subst this
+      rw [hst] at hyf; simp [flyingB] at hyf
+    · have := hI.wait x hx (by simp [hst, waitingB])
+      rw [this] at h1; simp at h1
+
+/-- **a cached answer is reused**: a worker holding a job whose key is cached cannot take the miss branch, and the
+result it hands to the caller is the cached answer. -/
+theorem answer_reused {W : Nat} {lockOf : Nat → Nat} (s : St) (lk a : Nat) (x : Holder)
+    (hx : holderAt s.holders lk = some x) (hc : lookup s.cache x.key = some a) :
+    enabled W lockOf s (.miss lk) = false ∧
+    (enabled W lockOf s (.hit lk) = true → (apply s (.hit lk)).log.head? = some (.deliver x.key (some a))) := by
+  constructor
+  · simp [enabled, hx, hc]
+  · intro _
+    simp [apply, keyAt_eq hx, hc]
+
+/-- all callers of one question get equal results while the answer is cached: a hit leaves the cache as it is, so the
+next hit for the same key (by `answer_reused`) delivers the same answer -/
+theorem hit_keeps_cache (s : St) (lk : Nat) : (apply s (.hit lk)).cache = s.cache := rfl
+
+/-- only a successful answer enters the cache, and only evictions remove entries: the other steps keep every lookup -/
+theorem cache_changes_only_by_set_or_gc (s : St) (a : Act) (k : Nat)
+    (h1 : ∀ lk, a ≠ .cacheSet lk) (h2 : ∀ k', a ≠ .gc k') : lookup (apply s a).cache k = lookup s.cache k := by
+  cases a <;> simp [apply] at * 
+
+/-! non-vacuity: a run in which two callers ask the same question with one worker: the second waits for the lock,
+finds the answer in the cache and the server sees one request -/
+def demoLockOf (k : Nat) : Nat := k + 100
+
+def demoRun : List Act :=
+  [ .acquire 107 7, .enqueue 107, .take 107, .miss 107, .send 107, .respOk 107 42, .cacheSet 107, .release 107,
+    .acquire 107 7, .enqueue 107, .take 107, .hit 107, .release 107 ]
+
+example : ((runActs 1 demoLockOf init demoRun).map fun s => s.log.reverse) =
+    some [.send 7, .respOk 7 42, .deliver 7 (some 42), .deliver 7 (some 42)] := by decide
+
+/-- the second caller cannot acquire the lock while the first holds it -/
+example : runActs 1 demoLockOf init [.acquire 107 7, .acquire 107 7] = none := by decide
+
+/-- with a lock key that is NOT a function of the cache key the model itself refuses the acquisition — this is the
+hypothesis the key table has to provide -/
+example : enabled 1 demoLockOf init (.acquire 5 7) = false := by decide
+
+theorem runActs_reach {W : Nat} {lockOf : Nat → Nat} : ∀ (as : List Act) (s s' : St), Reach W lockOf s →
+    runActs W lockOf s as = some s' → Reach W lockOf s'
+  | [], s, s', hr, h => by simp [runActs] at h; exact h ▸ hr
+  | a :: as, s, s', hr, h => by
+    simp only [runActs] at h
+    by_cases he : enabled W lockOf s a = true
+    · simp only [he, if_true] at h
+      exact runActs_reach as (apply s a) s' (Reach.step a hr he) h
+    · simp [he] at h
+
+/-! ## the key table of the Go code (regenerated from `internal/promapi` on every run) -/
+section Keys
+open Pint.Gen.Keys
+
+/-- the lock that guards the job: the last one taken before the job is queued -/
+def jobLock (e : Endpoint) : Option LockKey := e.locks.getLast?
+
+def sliceLockShape : List (Bool × String) :=
+  [(false, "strconv.FormatUint"), (false, "query.query.CacheKey()"), (false, "10")]
+
+/-- the lock key is a function of the cache key: it is built from constants and from fields that the cache key hashes,
+or it is the cache key itself -/
+def lockDetermined (e : Endpoint) (q : QueryType) : Bool :=
+  match jobLock e with
+  | none => false
+  | some l =>
+    if l.kind == "concat" then l.parts.all fun p => p.1 || q.cacheFields.contains ("q." ++ p.2)
+    else l.parts == sliceLockShape
+
+def queryTypeOf (e : Endpoint) : Option QueryType := queryTypes.find? fun q => q.name == e.queryType
+
+/-- hypothesis of the model (`acquire` needs `lockOf key = lk`), decided for every endpoint of the current source -/
+theorem keys_determined : endpoints.all (fun e => (queryTypeOf e).any (lockDetermined e)) = true := by decide
+
+/-- every lock is released by a deferred unlock of the same key, and the job is queued and awaited under the lock -/
+theorem locks_released_and_ordered :
+    endpoints.all (fun e => e.locks.all (·.deferredUnlock)) = true ∧
+    endpoints.map (·.order) =
+      [["lock", "defer-unlock", "enqueue", "receive"],
+       ["lock", "defer-unlock", "lock", "defer-unlock", "enqueue", "receive"],
+       ["lock", "defer-unlock", "enqueue", "receive"],
+       ["lock", "defer-unlock", "enqueue", "receive"],
+       ["lock", "defer-unlock", "enqueue", "receive"]] := by decide
+
+/-- the answer depends only on what the cache key hashes: every field the request is built from is in the cache key
+(together with the server URI and the endpoint) -/
+theorem cache_key_covers_request :
+    queryTypes.all (fun q => q.requestFields.all q.cacheFields.contains &&
+      (q.cacheArgs.take 2 == ["q.prom.unsafeURI", "q.Endpoint()"])) = true := by decide
+
+def expectedProcessJob : List String :=
+  ["cache.get", "if-cached{", "return", "}", "isSupported", "if-unsupported{", "return", "}", "ratelimit", "run",
+   "if-error{", "return", "apis.disable", "return", "return", "}", "cache.set", "return"]
+
+/-- `processJob`: cache lookup first, the request only after a miss, the cache is filled only after the error branch
+has returned — the step order the model's worker actions have -/
+theorem processJob_shape : processJob = expectedProcessJob := by decide
+
+def expectedWorkerLoop : String := "w := 1; w <= prom.concurrency"
+def expectedWorkerBody : String := "{ job.result <- processJob(prom, job) }"
+def expectedLockBody : String := "{ p.l.Lock() defer p.l.Unlock() for p.locked(id) { p.c.Wait() } p.s[id] = struct{}{} verifTrace(\"lock\", id, 0) }"
+def expectedUnlockBody : String := "{ p.l.Lock() defer p.l.Unlock() verifTrace(\"unlock\", id, 0) delete(p.s, id) p.c.Broadcast() }"
+
+/-- `concurrency` workers, one job at a time each; the keyed lock waits while the key is held -/
+theorem pool_and_lock_shape :
+    workerLoop = expectedWorkerLoop ∧ workerBody = expectedWorkerBody ∧
+    lockBody = expectedLockBody ∧ unlockBody = expectedUnlockBody := by decide
+
+/-- why a range query needs the per-slice lock: its outer lock key mentions the lookback (`params.String()`), which the
+slice cache key does not hash, so it is not a function of the cache key -/
+theorem range_outer_lock_not_determined_by_slice :
+    ((endpoints.find? fun e => e.method == "RangeQuery").bind fun e => e.locks.head?).any
+      (fun l => l.parts.any fun p => p.2 == "params.String()") = true ∧
+    ((queryTypes.find? fun q => q.name == "rangeQuery").any fun q => q.cacheArgs.any fun a => a == "params.String()") = false := by
+  decide
+
+end Keys
+
 end Pint.Props.C14
